@@ -3,7 +3,7 @@
    Scope (see level_note): the theorems are about the executable models NV.Runtime.DynArray (dyn_array.c + the emitted
    nl_array_slice) and NV.Runtime.Gc (gc.c without children); the ARC code the transpiler emits is not modelled. *)
 From Coq Require Import NArith ZArith List Bool.
-From NV Require Import Base.Bytes Runtime.DynArray Runtime.DynArrayProofs gen.RtParams.
+From NV Require Import Base.Bytes Runtime.DynArray Runtime.DynArrayProofs Runtime.Gc Runtime.GcProofs gen.RtParams.
 Import ListNotations.
 
 (* the measured constants satisfy what the proofs need: INITIAL_CAPACITY >= 1, GROWTH_FACTOR >= 2, element sizes < 256 *)
@@ -96,4 +96,60 @@ Example C20_dyn_nonvacuous :
   = (repeat OUnit 17 ++ [OUnit; OPop true (Val 16); OUnit; OUnit; OUnit; OCell (Val 99)],
      LFin {| l_kind := EInt; l_esize := 8;
              l_items := map Val [99; 4; 5; 6; 7; 8; 9; 10; 11; 12; 13; 14]%N |}).
+Proof. vm_compute. reflexivity. Qed.
+
+(* ------------------------------------------------------------------------------------------------ gc.c
+   gc_inv: the all-objects list, the pointer set and the live headers describe the same objects, each exactly once, none
+   with reference count 0; established by the empty state, preserved by alloc / retain / release / is_managed / collect
+   (retain must not wrap the 32-bit counter: [no_wrap]). *)
+Theorem C20_gc_inv_empty : ginv gc_empty.
+Proof. exact ginv_empty. Qed.
+Print Assumptions C20_gc_inv_empty.
+
+Theorem C20_gc_inv : forall g o g' out, ginv g -> no_wrap g o -> gstep rt_gc_header g o = GOk g' out -> ginv g'.
+Proof. exact (ginv_step rt_gc_header). Qed.
+Print Assumptions C20_gc_inv.
+
+(* release to zero frees exactly once: one new entry in the free log, the object leaves list and set, its block is no
+   longer live, all other objects untouched *)
+Theorem C20_gc_release_last_frees_once : forall g p x,
+  ginv g -> In p (g_list g) -> lookup (g_heap g) p = Some x -> h_rc x = 1%N ->
+  exists g', gstep rt_gc_header g (GRelease p) = GOk g' GUnit /\
+    ~ In p (g_list g') /\ ~ In p (g_set g') /\ lookup (g_heap g') p = None /\ g_frees g' = p :: g_frees g /\
+    (forall q, q <> p -> (In q (g_list g') <-> In q (g_list g)) /\ lookup (g_heap g') q = lookup (g_heap g) q).
+Proof. exact (release_last_frees_once rt_gc_header). Qed.
+Print Assumptions C20_gc_release_last_frees_once.
+
+(* no use of dead memory: every operation on NULL, on managed pointers, and release / is_managed on ANY pointer *)
+Theorem C20_gc_no_crash : forall g o, ginv g -> (forall p, o = GRetain p -> p = 0%N \/ In p (g_list g)) ->
+  gstep rt_gc_header g o <> GCrash.
+Proof. exact (gc_no_crash rt_gc_header). Qed.
+Print Assumptions C20_gc_no_crash.
+
+(* the "Double release detected" assert is unreachable from any state the API can produce ... *)
+Theorem C20_gc_no_abort : forall g o, ginv g -> gstep rt_gc_header g o <> GAbort.
+Proof. exact (gc_no_abort rt_gc_header). Qed.
+Print Assumptions C20_gc_no_abort.
+
+(* ... because a release of a pointer that is not (any more) in the set returns silently *)
+Theorem C20_gc_stale_release_silent : forall g p, ~ In p (g_set g) -> gstep rt_gc_header g (GRelease p) = GOk g GUnit.
+Proof. exact (stale_release_silent rt_gc_header). Qed.
+Print Assumptions C20_gc_stale_release_silent.
+
+(* REFUTED (DESIGN.md's "double release is the asserted fault, never a silent state"): the second release of a freed
+   object is a silent no-op; and when the allocator has handed the same address to a new object in between, the stale
+   release frees the NEW owner's object (is_managed answers false for a pointer its owner never released).
+   Both histories are replayed on the real gc.c by tools/props/c20.py (gc_probe, plain build / ASan without quarantine). *)
+Theorem C20_gc_double_release_asserted_refuted :
+  (exists g, grun rt_gc_header gc_empty [GAlloc 16 8 2; GRelease 16; GRelease 16] = ([GPtr 16; GUnit; GUnit], GFin g)) /\
+  fst (grun rt_gc_header gc_empty [GAlloc 16 8 2; GRelease 16; GAlloc 16 8 2; GRelease 16; GIsManaged 16])
+    = [GPtr 16; GUnit; GPtr 16; GUnit; GBool false]%N.
+Proof. split; [eexists|]; vm_compute; reflexivity. Qed.
+Print Assumptions C20_gc_double_release_asserted_refuted.
+
+Example C20_gc_nonvacuous :
+  match grun rt_gc_header gc_empty [GAlloc 16 8 2; GAlloc 32 100 5; GRetain 16; GRelease 16; GCollect; GRelease 32; GIsManaged 16]%N with
+  | (outs, GFin g) => ginvb g && N.eqb (g_count g) 1 && N.eqb (g_usage g) 48 && Nat.eqb (length outs) 7
+  | _ => false
+  end = true.
 Proof. vm_compute. reflexivity. Qed.
